@@ -231,3 +231,116 @@ Example C13_convention_concrete :
   Qeqb (count ang 0 (1 # 4) (map (read_wrapped pos 360 c) A') (map (read pos c) B)) 9 = true /\
   Qeqb (count ang 0 (1 # 4) (map (read_wrapped pos 360 (c / c)) Arad) (map (read pos c) B)) 3 = true.
 Proof. vm_compute. repeat split; reflexivity. Qed.
+
+(* ---------- counting over linked patch pairs only, catalogs with extents of their own ---------- *)
+(* The pair counting visits the linked patch pairs only, and the catalogs of a measurement share the centres, not the
+   extent of the data in a patch.  Whatever link test is used, nothing is lost as long as no unlinked patch pair holds a
+   counted pair ... *)
+Theorem C13_linked_count_sound : forall (P : Type) (ang : P -> P -> Q) link lo hi (A B : list (lobj P)),
+  (forall a b, In a A -> In b B -> in_range lo hi (ang (lp a) (lp b)) = true -> link (lpatch a) (lpatch b) = true) ->
+  linked_count ang link lo hi A B == count ang lo hi A B.
+Proof. exact @linked_count_sound. Qed.
+Print Assumptions C13_linked_count_sound.
+
+(* ... which the symmetric test does in any metric space, from ANY centres and radii that cover both catalogs and any
+   angle M >= hi ... *)
+Theorem C13_linked_count_covering : forall (P : Type) (ang : P -> P -> Q),
+  (forall a b, ang a b == ang b a) -> (forall a b c, ang a c <= ang a b + ang b c) ->
+  forall c R M lo hi (A B : list (lobj P)),
+  covers ang c R A = true -> covers ang c R B = true -> hi <= M ->
+  linked_count ang (link_sym ang c R M) lo hi A B == count ang lo hi A B.
+Proof. exact @linked_count_covering. Qed.
+Print Assumptions C13_linked_count_covering.
+
+(* ... and the radii of the code - per patch the farthest object of any catalog of the measurement - cover every one of
+   them, whichever catalog is the largest and however much wider or narrower than it the others are, patch by patch *)
+Theorem C13_reach_covers : forall (P : Type) (ang : P -> P -> Q) c (cats : list (list (lobj P))) A,
+  In A cats -> covers ang c (reach ang c cats) A = true.
+Proof. exact @reach_covers. Qed.
+Print Assumptions C13_reach_covers.
+
+(* hence: the same objects under other patch labels, measured with a geometry of its own (centres and radii listed in
+   another order, possibly taken from another catalog), give the same counts ... *)
+Theorem C13_linked_count_relabel_extents : forall (P : Type) (ang : P -> P -> Q),
+  (forall a b, ang a b == ang b a) -> (forall a b c, ang a c <= ang a b + ang b c) ->
+  forall pi c R M c' R' M' lo hi (A B : list (lobj P)),
+  covers ang c R A = true -> covers ang c R B = true -> hi <= M ->
+  covers ang c' R' (map (relabel pi) A) = true -> covers ang c' R' (map (relabel pi) B) = true -> hi <= M' ->
+  linked_count ang (link_sym ang c' R' M') lo hi (map (relabel pi) A) (map (relabel pi) B)
+  == linked_count ang (link_sym ang c R M) lo hi A B.
+Proof. exact @linked_count_relabel_extents. Qed.
+Print Assumptions C13_linked_count_relabel_extents.
+
+(* ... and the measurements of the two parts of a split catalog - either catalog of the pair - each with the geometry of
+   its own measurement (another catalog may be the largest there), add up to the unsplit counts *)
+Theorem C13_linked_count_additive_extents : forall (P : Type) (ang : P -> P -> Q),
+  (forall a b, ang a b == ang b a) -> (forall a b c, ang a c <= ang a b + ang b c) ->
+  forall c R M c1 R1 M1 c2 R2 M2 lo hi (A B1 B2 : list (lobj P)),
+  covers ang c R A = true -> covers ang c R (B1 ++ B2) = true -> hi <= M ->
+  covers ang c1 R1 A = true -> covers ang c1 R1 B1 = true -> hi <= M1 ->
+  covers ang c2 R2 A = true -> covers ang c2 R2 B2 = true -> hi <= M2 ->
+  linked_count ang (link_sym ang c R M) lo hi A (B1 ++ B2)
+  == linked_count ang (link_sym ang c1 R1 M1) lo hi A B1 + linked_count ang (link_sym ang c2 R2 M2) lo hi A B2.
+Proof. exact @linked_count_additive_extents. Qed.
+Print Assumptions C13_linked_count_additive_extents.
+Theorem C13_linked_count_additive_extents_first : forall (P : Type) (ang : P -> P -> Q),
+  (forall a b, ang a b == ang b a) -> (forall a b c, ang a c <= ang a b + ang b c) ->
+  forall c R M c1 R1 M1 c2 R2 M2 lo hi (A1 A2 B : list (lobj P)),
+  covers ang c R (A1 ++ A2) = true -> covers ang c R B = true -> hi <= M ->
+  covers ang c1 R1 A1 = true -> covers ang c1 R1 B = true -> hi <= M1 ->
+  covers ang c2 R2 A2 = true -> covers ang c2 R2 B = true -> hi <= M2 ->
+  linked_count ang (link_sym ang c R M) lo hi (A1 ++ A2) B
+  == linked_count ang (link_sym ang c1 R1 M1) lo hi A1 B + linked_count ang (link_sym ang c2 R2 M2) lo hi A2 B.
+Proof. exact @linked_count_additive_extents_first. Qed.
+Print Assumptions C13_linked_count_additive_extents_first.
+
+(* the symmetric test does not care which of two patches carries the lower id (an autocorrelation visits a patch pair
+   once, from the lower id) *)
+Theorem C13_link_sym_symmetric : forall (P : Type) (ang : P -> P -> Q), (forall a b, ang a b == ang b a) ->
+  forall c R M i j, link_sym ang c R M i j = link_sym ang c R M j i.
+Proof. exact @link_sym_symmetric. Qed.
+Print Assumptions C13_link_sym_symmetric.
+
+(* a one-sided test - the own radius of the largest catalog for the patch being linked, the enlarged radius for the other
+   one - is not such a test: where a smaller catalog reaches beyond the largest one in a patch, the cross-correlation loses
+   the pairs to the neighbouring patch, the autocorrelation counts them or not depending on the patch numbering, and the
+   counts of a split catalog do not add up when the whole is the largest catalog of its measurement and the parts are not;
+   the symmetric test on the same radii passes the relabelling *)
+Theorem C13_one_sided_link_refuted :
+  exists (c c' : nat -> Q) (r R r' R' : nat -> Q) (M lo hi : Q) (D U1 U2 : list (lobj Q)),
+    covers line_ang c R D = true /\ covers line_ang c R (U1 ++ U2) = true /\ hi <= M /\
+    covers line_ang c' R' (map (relabel swap01) D) = true /\
+    (forall i, c' (swap01 i) = c i /\ r' (swap01 i) = r i /\ R' (swap01 i) = R i) /\
+    ~ linked_count line_ang (link_own line_ang c r R M) lo hi D (U1 ++ U2) == count line_ang lo hi D (U1 ++ U2) /\
+    ~ linked_count line_ang (auto_link (link_own line_ang c' r' R' M)) lo hi (map (relabel swap01) D) (map (relabel swap01) D)
+      == linked_count line_ang (auto_link (link_own line_ang c r R M)) lo hi D D /\
+    ~ linked_count line_ang (link_own line_ang c R R M) lo hi D (U1 ++ U2)
+      == linked_count line_ang (link_own line_ang c r R M) lo hi D U1 + linked_count line_ang (link_own line_ang c r R M) lo hi D U2 /\
+    linked_count line_ang (auto_link (link_sym line_ang c' R' M)) lo hi (map (relabel swap01) D) (map (relabel swap01) D)
+      == linked_count line_ang (auto_link (link_sym line_ang c R M)) lo hi D D.
+Proof. exact link_own_refuted. Qed.
+Print Assumptions C13_one_sided_link_refuted.
+
+(* on the line: centres 0 and 4, randoms within 1 of either centre (the largest catalog), data reaching to 17/10 in patch 0
+   and sitting at 3 in patch 1, an unknown sample at 3 and 5; M = hi = 16/10.  With the radii taken over all three catalogs
+   the two patches are linked in either direction and under either numbering, the linked counts are the full counts
+   (data x unknown: 2 * 5 = 10; data x data in one direction: 2 * 3 = 6), and the unknown sample split into its two
+   objects adds up; with the randoms' own radius for the patch being linked the link 0 -> 1 is missing *)
+Example C13_extents_concrete :
+  let o := fun (x w : Q) (k : nat) => {| lp := x; lw := w; lpatch := k |} in
+  let c := fun i : nat => match i with O => 0 | _ => 4 end in
+  let Rn := [o (- (1)) 1 0%nat; o 1 1 0%nat; o 3 1 1%nat; o 5 1 1%nat; o 4 1 1%nat] in
+  let D := [o (17 # 10) 2 0%nat; o 3 3 1%nat] in
+  let U1 := [o 3 5 1%nat] in let U2 := [o 5 7 1%nat] in
+  let R := reach line_ang c [Rn; D; U1 ++ U2] in let r := reach line_ang c [Rn] in
+  let M := 16 # 10 in
+  Qeqb (R 0%nat) (17 # 10) = true /\ Qeqb (r 0%nat) 1 = true /\ Qeqb (R 1%nat) 1 = true /\
+  covers line_ang c R D = true /\ covers line_ang c R (U1 ++ U2) = true /\ covers line_ang c r D = false /\
+  link_sym line_ang c R M 0 1 = true /\ link_sym line_ang c R M 1 0 = true /\
+  link_own line_ang c r R M 0 1 = false /\ link_own line_ang c r R M 1 0 = true /\
+  Qeqb (linked_count line_ang (link_sym line_ang c R M) 0 M D (U1 ++ U2)) 10 = true /\
+  Qeqb (count line_ang 0 M D (U1 ++ U2)) 10 = true /\
+  Qeqb (linked_count line_ang (link_sym line_ang c R M) 0 M D U1 + linked_count line_ang (link_sym line_ang c R M) 0 M D U2) 10 = true /\
+  Qeqb (linked_count line_ang (auto_link (link_sym line_ang c R M)) 0 M D D) 6 = true /\
+  Qeqb (linked_count line_ang (link_own line_ang c r R M) 0 M D (U1 ++ U2)) 0 = true.
+Proof. vm_compute. repeat split; reflexivity. Qed.
